@@ -297,6 +297,10 @@ class Executor:
         mod = frame.func.module
         if mod is not None and name in mod.__dict__:
             return mod.__dict__[name]
+        cls = getattr(frame.func, "cls", None)
+        if cls is not None and self.mangle(name, frame) in cls.__dict__:
+            # a default value that names a class-level private attribute
+            return cls.__dict__[self.mangle(name, frame)]
         if hasattr(builtins, name):
             return getattr(builtins, name)
         extra = self.opt.get("spec_globals", {})
@@ -557,8 +561,18 @@ class Executor:
     def e_JoinedStr(self, node, frame):
         return OpaqueStr()
 
+    @staticmethod
+    def mangle(name, frame):
+        """class-private names (__x inside a class body) are mangled by the
+        compiler; the AST still has the source spelling"""
+        cls = getattr(frame.func, "cls", None)
+        if cls is not None and name.startswith("__") and not name.endswith("__"):
+            return f"_{cls.__name__.lstrip('_')}{name}"
+        return name
+
     def e_Attribute(self, node, frame):
-        return self.getattr(self.eval(node.value, frame), node.attr, frame)
+        return self.getattr(self.eval(node.value, frame),
+                            self.mangle(node.attr, frame), frame)
 
     def e_Tuple(self, node, frame):
         return tuple(self.eval_seq(node.elts, frame))
